@@ -790,6 +790,18 @@ pub fn run_recip(scn: &Scenario, ctx: &mut Ctx) {
                         }
                         Err(_) => orig.clone(),
                     },
+                    // a former recipient that was hidden: a 'hasRecipient' assertion whose object is elided
+                    // (or encrypted / compressed) is already there when the envelope is encrypted to the list
+                    2 if !whole => {
+                        let former = Envelope::new(dcbor::ByteString::from(vec![7u8; 40]));
+                        let hidden = match (st.arg(3) >> 8) % 3 {
+                            0 => former.elide(),
+                            1 => former.encrypt_subject(&sym_key(3)).unwrap_or_else(|_| former.elide()),
+                            _ => former.compress().unwrap_or_else(|_| former.elide()),
+                        };
+                        ctx.probe("hidden-former-recipient");
+                        orig.add_assertion(known_values::HAS_RECIPIENT, hidden)
+                    }
                     _ => orig.clone(),
                 };
                 let base = if whole { orig.wrap_envelope() } else { orig.clone() };
@@ -1377,7 +1389,13 @@ pub fn run_proof(scn: &Scenario, ctx: &mut Ctx) {
             targets.insert(sha(&st.arg(2).to_le_bytes()));
             ctx.probe("absent-target");
         }
-        if targets.is_empty() {
+        // the empty target set: every target (there is none) occurs, so a proof is produced and accepted
+        let empty = op == "P.Honest" && st.arg(2) % 11 == 3;
+        if empty {
+            targets.clear();
+            ctx.probe("empty-target-set");
+        }
+        if targets.is_empty() && !empty {
             continue;
         }
         if targets.len() >= 2 {
@@ -1405,6 +1423,46 @@ pub fn run_proof(scn: &Scenario, ctx: &mut Ctx) {
         if nested {
             ctx.probe("nested-targets");
         }
+        // another holder has a copy of the same document (same root digest) in which one part is elided: asked for
+        // the same targets, before or after the holder of this copy, it can prove them iff they occur in ITS copy
+        let copy_check = |ctx: &mut Ctx| {
+            if !w.docs[d].independent || dm.has_obscured() {
+                return;
+            }
+            let pos = dm.positions();
+            if pos.len() < 2 {
+                return;
+            }
+            let p = &pos[1 + (st.arg(3) % (pos.len() as u64 - 1)) as usize];
+            let mut hide = BTreeSet::new();
+            hide.insert(p.digest());
+            let dm2 = dm.obscure_set(&hide, false, Obsc::Elided);
+            let doc2 = match guarded(|| doc.elide_removing_target(&to_lib_digest(&p.digest()))) {
+                Ok(e) => e,
+                Err(_) => return,
+            };
+            if digest_of(&doc2) != dm.digest() {
+                return;
+            }
+            let list2 = dm2.digest_list();
+            let present2 = targets.iter().all(|t| list2.contains(t));
+            ctx.checked();
+            match guarded(|| doc2.proof_contains_set(&lib_t)) {
+                Ok(pr) => {
+                    if pr.is_some() != present2 {
+                        ctx.violate("C12.produced-iff", format!("a partly elided copy of the document: proof produced = {} but all targets present in that copy = {}", pr.is_some(), present2));
+                    }
+                    if present2 != all_present {
+                        ctx.probe("copies-differ-in-target-presence");
+                    }
+                }
+                Err(p) => ctx.violate_sig("C16.no-panic", format!("proof_contains_set panicked on a partly elided copy: {}", p), p),
+            }
+        };
+        let copy_mode = st.arg(2) % 4;
+        if copy_mode == 1 {
+            copy_check(ctx);
+        }
         let proof = match guarded(|| doc.proof_contains_set(&lib_t)) {
             Ok(p) => p,
             Err(p) => {
@@ -1412,6 +1470,9 @@ pub fn run_proof(scn: &Scenario, ctx: &mut Ctx) {
                 continue;
             }
         };
+        if copy_mode == 2 {
+            copy_check(ctx);
+        }
         ctx.checked();
         // completeness of production
         if proof.is_some() != all_present {
